@@ -3,6 +3,9 @@
 import json, subprocess
 ALL = ["C%02d" % i for i in range(1, 21)]
 CLAIMED = {
+ "C20": dict(level="exploration", technique="offline checkers over timestamped event logs (sliding-window rate bound and recovery on [before, after] intervals), runtime invariants for capacity (size<=max, refusal without side effects) and throttle (at-most-once, pending bound), under the Go race detector",
+   text="Capacity histories around MaxFacts (sequential and concurrent adders), breaker runs with 1-16 concurrent callers and hostile arrival patterns logged with monotonic intervals and checked for any limit+1 admissions certainly inside one window and for refusals after certain age-out, and throttle runs with many submitters; held-on-K-runs assurance.",
+   note="Breaker verdicts need certainty from interval arithmetic (no wall-clock deadlines); refusals after age-out that the breaker's own whole-tick accounting cannot exclude are attributed to the open finding c20.breaker-slide-drops-remainder.", ref="§5 C20"),
  "C11": dict(level="exploration", technique="Go race detector + sequential-twin differential over recorded per-client results: concurrent clients on disjoint locations of a fresh engine (sys.System and HTTP) vs the same sequences run alone; barrier start, injected delays, watchdog",
    text="Rounds of 8-16 clients, each owning one location and starting with the engine's very first requests, are run concurrently under the race detector and compared request by request and by final state with a sequential run on another fresh engine; crashes, hangs and race reports are violations.",
    note="Schedules are sampled, not enumerated; results are normalised (generated request ids, timing fields); engines are created sequentially by the harness.", ref="§5 C11"),
